@@ -17,7 +17,7 @@ package util
 //@   ensures result == uf("unwrap1", self)
 //@ extfunc interface{Unwrap() []error}.Unwrap
 //@   modifies nothing
-//@   ensures len(result) == uf("unwrapN.len", self) && (forall j int :: 0 <= j && j < len(result) ==> result[j] == uf("unwrapN.at", self, j))
+//@   ensures len(result) == uf("unwrapN.len", self) && uf("unwrapN.len", self) >= 0 && uf("unwrapN.len", self) <= 4611686018427387904 && (forall j int :: 0 <= j && j < len(result) ==> result[j] == uf("unwrapN.at", self, j))
 
 // The specification: e matches T when e's own type is assignable to T, or (e wraps a single cause) the cause matches,
 // or (e joins several errors) one of the joined errors matches. A type with both Unwrap forms is treated as the
@@ -30,7 +30,7 @@ package util
 //@ func errorAs
 //@   requires err != nil && targetType != nil
 //@   loop 0 invariant local("err") != nil && errMatches(local("err"), targetType) == errMatches(err, targetType)
-//@   loop 1 invariant -1 <= rangeindex && local("err") != nil && wrapsN(local("err")) && (forall j int :: 0 <= j && j <= rangeindex ==> uf("unwrapN.at", local("err"), j) == nil || !errMatches(uf("unwrapN.at", local("err"), j), targetType))
+//@   loop 1 invariant -1 <= rangeindex && rangeindex < uf("unwrapN.len", local("err")) && uf("unwrapN.len", local("err")) <= 4611686018427387904 && local("err") != nil && wrapsN(local("err")) && (forall j int :: 0 <= j && j <= rangeindex ==> uf("unwrapN.at", local("err"), j) == nil || !errMatches(uf("unwrapN.at", local("err"), j), targetType))
 //@   loop 1 invariant errMatches(local("err"), targetType) == errMatches(err, targetType) && !wraps1(local("err")) && !ufb("assignable", uf("rtype", local("err")), targetType)
 //@   loop 1 decreases uf("unwrapN.len", local("err")) - rangeindex
 //@   ensures [C12.errortypes.wraps_and_joins] result == errMatches(err, targetType)
